@@ -64,7 +64,7 @@ def base_env(pid, tier, seed):
     env['VERIF_TIER'] = tier
     env['ASAN_OPTIONS'] = 'detect_leaks=0:abort_on_error=0:allocator_may_return_null=1:handle_abort=0:detect_stack_use_after_return=0:malloc_context_size=6'
     env['UBSAN_OPTIONS'] = 'print_stacktrace=1:halt_on_error=1:abort_on_error=1'
-    env['TSAN_OPTIONS'] = 'halt_on_error=1:second_deadlock_stack=1:report_signal_unsafe=0'
+    env['TSAN_OPTIONS'] = 'halt_on_error=1:second_deadlock_stack=1:report_signal_unsafe=0:suppressions=' + os.path.join(VERIF, 'vdriver', 'tsan.supp')   # one tool artifact, explained in the file
     env.pop('RC_PARAMS', None)
     return env
 
